@@ -189,6 +189,8 @@ pub struct Ctx {
     pub exact: bool,
     pub track_survivors: bool,
     pub check_foreign: bool,
+    /// end the run (through the injected-failure exit) as soon as a hook records a violation
+    pub stop_on_finding: bool,
     pub out: String,
     pub fold: Fold,
     pub findings: Vec<Finding>,
@@ -225,6 +227,7 @@ impl Ctx {
             exact: false,
             track_survivors: false,
             check_foreign: false,
+            stop_on_finding: true,
             out: String::new(),
             fold: Fold::new(),
             findings: Vec::new(),
@@ -577,7 +580,7 @@ fn audit(ctx: &mut Ctx, info: &StepInfo, post_collection: bool) {
                 d, path, ctx.step, opn
             ),
         );
-        ctx.stop = true;
+        ctx.stop = ctx.stop_on_finding;
     }
     if post_collection {
         if !w.reach.is_empty() {
@@ -639,7 +642,7 @@ fn audit(ctx: &mut Ctx, info: &StepInfo, post_collection: bool) {
                                 now
                             ),
                         );
-                        ctx.stop = true;
+                        ctx.stop = ctx.stop_on_finding;
                     }
                 }
             }
@@ -866,7 +869,7 @@ fn h_pre_destroy(addr: usize, kind: u8) -> bool {
                         step
                     ),
                 );
-                ctx.stop = true;
+                ctx.stop = ctx.stop_on_finding;
                 false
             }
             ReleaseCheck::Unknown => {
@@ -876,7 +879,7 @@ fn h_pre_destroy(addr: usize, kind: u8) -> bool {
                     shadow::kind_name(kind).to_string(),
                     format!("release of an address that was never allocated as an object (step {})", step),
                 );
-                ctx.stop = true;
+                ctx.stop = ctx.stop_on_finding;
                 false
             }
         }
@@ -907,7 +910,7 @@ fn h_access(addr: usize) {
                     format!("@{}", opn),
                     format!("dereference of an address that is not a known object (step {}, {})", step, opn),
                 );
-                ctx.stop = true;
+                ctx.stop = ctx.stop_on_finding;
             }
             Some(e) if !e.alive => {
                 let d = sh.describe(addr);
@@ -919,7 +922,7 @@ fn h_access(addr: usize) {
                     format!("{}@{}", k, wher),
                     format!("{} dereferenced at step {} ({}) after it was released", d, step, opn),
                 );
-                ctx.stop = true;
+                ctx.stop = ctx.stop_on_finding;
             }
             Some(e) => {
                 if ctx.check_foreign && ctx.active && e.owner != ctx.eval_id {
